@@ -80,6 +80,7 @@ def parseProp (trace : List (Rec × List Rec)) : Option String := Id.run do
   for (_, obs) in trace do
     if obs.any (·.name == "crash") then return some "crash: lexing/parsing killed the process"
     if obs.any (·.name == "hang") then return some "hang: parsing did not terminate within the deadline"
+    if obs.any (·.name == "neither") then return some "the parser returned neither a program nor an error"
     if obs.any (·.name == "slow") then return some "slow: parsing time is not bounded by a linear budget"
     if obs.any fun r => r.name == "gor" && r.int "leaked" > 0 then
       return some "background work (the lexer goroutine) still running after the parser returned"
